@@ -10,12 +10,18 @@ pub mod stubs;
 
 pub mod c07;
 pub mod c08;
+pub mod c09;
 pub mod c20;
+pub mod c32;
+pub mod c33;
 
 pub fn tables() -> Vec<(&'static str, vsrc::NativeFn)> {
     let mut t = Vec::new();
     t.extend(c07::table());
     t.extend(c08::table());
+    t.extend(c09::table());
     t.extend(c20::table());
+    t.extend(c32::table());
+    t.extend(c33::table());
     t
 }
